@@ -48,10 +48,22 @@ def build(targets):
     return rc == 0, out
 
 
-def build_driver():
-    ok, out = build(['siodriver'])
+_built = set()
+
+
+def driver_path(kernel):
+    return os.path.join(LEAN, '.lake', 'build', 'bin', 'sd_' + kernel)
+
+
+def build_driver(kernel=None):
+    """Each kernel has its own executable (sd_<kernel>) so that one kernel's build problem cannot
+    stop the checks of the others.  Built (no-op when fresh) once per process and kernel."""
+    if kernel is None or kernel in _built:
+        return
+    ok, out = build(['sd_' + kernel])
     if not ok:
         raise Infra('driver build failed:\n' + out[-3000:])
+    _built.add(kernel)
 
 
 def strip_comments(src):
@@ -148,10 +160,9 @@ class Driver:
     """One model process; `ask` is synchronous, `batch` pipes many lines at once."""
 
     def __init__(self, kernel):
-        if not os.path.exists(DRIVER):
-            build_driver()
+        build_driver(kernel)
         self.kernel = kernel
-        self.p = subprocess.Popen([DRIVER, kernel], stdin=subprocess.PIPE, stdout=subprocess.PIPE,
+        self.p = subprocess.Popen([driver_path(kernel)], stdin=subprocess.PIPE, stdout=subprocess.PIPE,
                                   text=True, bufsize=1)
 
     def ask(self, obj):
@@ -175,10 +186,9 @@ class Driver:
 
 def batch(kernel, objs):
     """Run a fresh driver over all lines; returns list of answers."""
-    if not os.path.exists(DRIVER):
-        build_driver()
+    build_driver(kernel)
     data = ''.join(json.dumps(o) + '\n' for o in objs)
-    p = subprocess.run([DRIVER, kernel], input=data, stdout=subprocess.PIPE, text=True, timeout=3000)
+    p = subprocess.run([driver_path(kernel)], input=data, stdout=subprocess.PIPE, text=True, timeout=3000)
     lines = p.stdout.splitlines()
     if len(lines) != len(objs):
         raise Infra('driver %s answered %d lines for %d ops' % (kernel, len(lines), len(objs)))
